@@ -13,7 +13,9 @@ ProjVal(j) ==
       [] j.k = "list" -> VList(j.l)
       [] j.k = "hash" -> VHash([f \in {p.f : p \in Range(j.h)} |->
                                    ProjVal((CHOOSE p \in Range(j.h) : p.f = f).v)])
-      [] j.k = "set"  -> IF j.card = Cardinality(Range(j.s)) THEN VSet(Range(j.s)) ELSE j
+      \* a set whose cached cardinality disagrees with its members is corrupt: it is no value of the model
+      [] j.k = "set"  -> IF j.card = Cardinality(Range(j.s)) THEN VSet(Range(j.s))
+                         ELSE [k |-> "corrupt-set", card |-> j.card, members |-> Range(j.s)]
       [] j.k = "zset" -> VZSet([m \in {p.m : p \in Range(j.z)} |->
                                    LET p == CHOOSE p \in Range(j.z) : p.m = m IN
                                    IF "nonquarter" \in DOMAIN p THEN [q |-> p.q, inf |-> p.inf, nonquarter |-> p.nonquarter]
